@@ -45,6 +45,16 @@ def check(ctx):
     c01.r01_5(ctx, m)
     c01.r01_46_stable(ctx, m)
     c01.r01_46_unstable(ctx, m)
+    from . import c03, c16
+    from .c19 import tag_loop, tag_regex_info
+
+    c03.r03_7(ctx)
+    c03.r03_4(ctx, None)
+    # "every optional field ... unchanged": the parser must accept the whole tag grammar (shared with C16)
+    pf, loop = tag_loop(ctx, "R16.1")
+    info16 = tag_regex_info(pf, loop, "R16.1")
+    c16.r16_1(ctx, pf, loop, info16)
+    c16.r16_2(ctx, pf, loop)
     ctx.not_decided.append("composition of the two directions on canonical records (round-trip equality as a whole)")
 
 
